@@ -87,7 +87,7 @@ class C11(Check):
                    'first/last/mean(reduce) on an empty key are outside the domain (discarded by the model)']
     ANCHORS = ['rxsci/data/roll.py', 'rxsci/data/split.py', 'rxsci/data/time_split.py', 'rxsci/operators/group_by.py',
                'rxsci/operators/tee_map.py', 'rxsci/operators/scan.py', 'rxsci/data/batch.py', 'rxsci/operators/multiplex.py']
-    REQUIRED_TAGS = ['roll', 'split', 'time_split', 'group_by', 'tee_map', 'batch', 'scan', 'mux', 'plain', 'depth>=2', 'scale'] + ['history-fed-more-than-the-judged-stream'] + PRELUDE_TAGS
+    REQUIRED_TAGS = ['roll', 'split', 'time_split', 'group_by', 'tee_map', 'batch', 'scan', 'mux', 'plain', 'depth>=2', 'scale', 'two-output-router'] + ['history-fed-more-than-the-judged-stream'] + PRELUDE_TAGS
     REQUIRED_OBSERVED = ['outputs_positioned', 'outputs_before_completion', 'outputs_at_completion', 'cold_scheduler_runs_compared']
 
     def generate(self, rng, tier, shard, nshards):
@@ -96,6 +96,12 @@ class C11(Check):
     def _generate(self, rng, tier, shard, nshards):
         n = 15000 if tier == 'quick' else 10 ** 7
         for k in range(n):
+            if k % 300 == 150:
+                # a per-item ROUTER with two outputs (rs.data.train_test_split: both outputs must be subscribed, so the program
+                # generator cannot place it): every item leaves on one of the two outputs while it is being processed
+                yield {'router': {'test_ratio': rng.choice([0.5, 0.25, 0.2, 0.1, 0.34]), 'sampling_size': rng.choice([1, 1, 2, 3, 5, 8])},
+                       'prog': [], 'items': [rng.randint(0, 99) for _ in range(rng.choice([0, 1, 7, 10, 31]))], 'mode': 'plain'}
+                continue
             if k % 700 == 350:
                 # scale: sizes beyond CPython's small-int cache and typical block sizes (take/batch/lag 257+, roll windows
                 # of 257-400 items, 300-1000 groups, day-scale time_split timeouts) on streams of ~700 items
@@ -123,8 +129,40 @@ class C11(Check):
                 items = sorted(items)       # (timestamps are non-decreasing in the domain of C07; the model discards what an upstream operator scrambles)
             yield {'prog': prog, 'items': items, 'mode': 'plain' if plain else 'mux'}
 
+    def _eval_router(self, case, out):
+        from ..progs import Controlled, call
+        items = case['items']
+        out.tags.append('two-output-router')
+        src = Controlled()
+        cfg = case['router']
+        outs = call(rs.data.train_test_split, [('test_ratio', cfg['test_ratio']), ('sampling_size', cfg['sampling_size'])])(src.observable)
+        journal, done, errs = [], [], []
+        for name, o in zip(('train', 'test'), outs):
+            o.subscribe(on_next=lambda v, name=name: journal.append((len(pushed) - 1, name, v)), on_error=errs.append, on_completed=lambda name=name: done.append(name))
+        pushed = []
+        try:
+            for x in items:
+                pushed.append(x)
+                src.push(x)
+            src.complete()
+        except Exception as e:      # noqa: BLE001
+            errs.append(e)
+        if errs or sorted(done) != ['test', 'train']:
+            return out.fail('router-did-not-complete-both-outputs', errors=[repr(e) for e in errs][:2], completed=done)
+        out.observed['outputs_positioned'] += len(journal)
+        out.observed['outputs_before_completion'] += len(journal)
+        if len(items) >= 2:
+            out.nontrivial = True
+        if [(p, v) for p, _, v in journal] != list(enumerate(items)):
+            late = [(p, nm, v) for k_, (p, nm, v) in enumerate(journal) if k_ < len(items) and p != k_]
+            return out.fail('output-not-at-the-determining-item', what='train_test_split', cfg=cfg, n_items=len(items),
+                            want=[[k_, v] for k_, v in enumerate(items)][:12], got=[[p, nm, v] for p, nm, v in journal][:12], first_late=late[:1])
+        return out
+
     def evaluate(self, case):
         out = Outcome()
+        if case.get('router'):
+            return self._eval_router(case, out)
         prog, items, mode = case['prog'], case['items'], case['mode']
         names = progs.op_names(prog)
         out.tags += sorted(set(names)) + [mode]
